@@ -46,6 +46,7 @@ struct Runtime {
   bool record = false;
   bool parked = false;
   uint64_t switches = 0, fired = 0;
+  std::vector<uint32_t> firedOrder;
 };
 Runtime* g_rt = nullptr;
 thread_local int t_task = -1;  // task index of this thread, -1 outside tasks
@@ -116,6 +117,7 @@ static void onGuard(uint32_t id) {
   if (ix < list.size() && list[ix].at == n) {
     int to = list[ix].to;
     uint64_t quantum = list[ix].quantum;
+    uint32_t pid = list[ix].id;
     ix++;
     while (ix < list.size() && list[ix].at == n)
       ix++;
@@ -125,6 +127,7 @@ static void onGuard(uint32_t id) {
         to = nextLive(*rt, me);
       if (to >= 0) {
         rt->fired++;
+        rt->firedOrder.push_back(pid);
         rt->quantumLeft[size_t(to)] = quantum;
         rt->giveBackTo[size_t(to)] = me;
       }
@@ -164,6 +167,7 @@ static Result finishResult(Runtime& rt, std::vector<TaskReport>& reports) {
   r.tasks = std::move(reports);
   r.switches = rt.switches;
   r.preemptionsFired = rt.fired;
+  r.firedOrder = rt.firedOrder;
   return r;
 }
 
@@ -177,9 +181,12 @@ Result runParked(const std::vector<std::function<void()>>& tasks, const std::vec
   rt.nextPre.assign(tasks.size(), 0);
   rt.quantumLeft.assign(tasks.size(), 0);
   rt.giveBackTo.assign(tasks.size(), -1);
-  for (auto& p : schedule)
+  for (size_t i = 0; i < schedule.size(); i++) {
+    Preemption p = schedule[i];
+    p.id = uint32_t(i);
     if (p.task >= 0 && p.task < rt.ntasks && p.at > 0)
       rt.perTask[size_t(p.task)].push_back(p);
+  }
   for (auto& l : rt.perTask)
     std::stable_sort(l.begin(), l.end(), [](const Preemption& a, const Preemption& b) { return a.at < b.at; });
   rt.reports = &reports;
